@@ -741,6 +741,9 @@ func exercise(st *stats, u *sergen.Universe, si int, s *sergen.Shape, nVals int,
 		for _, f := range single {
 			st.dist("features", f)
 		}
+		for _, cl := range s.Classes() {
+			st.count("shapes_with/"+cl, 1)
+		}
 	}
 }
 
@@ -749,7 +752,7 @@ func run(c *vf.Ctx) {
 		replay(c)
 		return
 	}
-	c.SetRule("forward: one evaluation = Encode output of an accepted (shape, value, validation) triple compared byte for byte with the harness's reference encoder (schema-driven, standard library only); reverse: valid encodings (validation on) are mutated at the offsets the reference encoder marks as length prefixes, element counts, optional markers, type codes, bools, element boundaries (swap / duplicate / drop / reverse), plus tails, truncations and random bytes; one evaluation = a candidate that validated Decode accepted, re-encoded and compared with the consumed prefix. distinct_nontrivial = distinct (shape hash, mutation class, array-rule class) triples among *accepted mutants that differ from the original encoding*; shapes: seeded dynamic universes (run-time built types on a fresh API) + the static universe")
+	c.SetRule("forward: one evaluation = Encode output of an accepted (shape, value, validation) triple compared byte for byte with the harness's reference encoder (schema-driven, standard library only); reverse: valid encodings (validation on) are mutated at the offsets the reference encoder marks as length prefixes, element counts, optional markers, type codes, bools, element boundaries (swap / duplicate / drop / reverse), plus tails, truncations and random bytes; one evaluation = a candidate that validated Decode accepted, re-encoded and compared with the consumed prefix. distinct_nontrivial = distinct (shape hash, mutation class, array-rule class) triples among *accepted mutants that differ from the original encoding*; shapes: seeded dynamic universes (run-time built types on a fresh API; element / key types also from a pool of defined types over the basic kinds, time.Time / *big.Int also behind pointers: counters shapes_with/*) + the static universe")
 	a := &agg{c: c}
 	workers := runtime.NumCPU()
 	nUni := c.Pick(600, 12000)
@@ -813,6 +816,13 @@ func run(c *vf.Ctx) {
 	c.Require("shapes_with_map_lexical_ordering_explicitly_false", c.Pick(60, 1200))
 	c.Require("toplevel_with_type_settings_comparisons", c.Pick(4000, 80000))
 	c.Require("accepted_mutants/rule=mustoccur", c.Pick(30, 600))
+	// defined element / key types and specially treated types behind pointers (shapes with an accepted non-zero value)
+	for cl, min := range map[string]int{"array-of-named-u8": 30, "slice-of-named-u8": 20, "ptr-to-array-of-named-u8": 12, "toplevel-array-of-named-u8": 6,
+		"mapkey-named-u8": 10, "array-of-named-scalar": 30, "slice-of-named-scalar": 40, "map-of-named-scalar": 60, "coll-of-named-bytes": 15, "coll-of-named-bytearr": 15,
+		"named-collection-type": 50, "ptr-to-time": 120, "ptr-to-time/optional": 60, "ptr-to-time/field": 25, "ptr-to-time/slice-elem": 12,
+		"ptr-to-time/map-value": 8, "ptr-to-time/toplevel": 25, "ptr-to-time/in-interface-impl": 50, "optional-bigint": 40} {
+		c.Require("shapes_with/"+cl, c.Pick(min, 10*min))
+	}
 	c.Require("accepted_mutants/rule=oneofeach", c.Pick(40, 800))
 	for _, k := range []string{"count-value", "prefix-value", "optional-marker", "bool-byte", "element-swap", "element-duplicate", "element-drop", "type-code"} {
 		c.Require("accepted_mutants/kind="+k, c.Pick(100, 2000))
